@@ -43,6 +43,7 @@ static uint32_t rec[MAXREC];
 static size_t nrec;
 static long pct_points[16];
 static long pct_low = -1;
+static int record_on;
 sim_sched_stats_t sim_sched_stats;
 void (*sim_deadlock_handler)(const char *state);
 void (*sim_budget_handler)(void);
@@ -565,6 +566,7 @@ int sim_sched_plan(int argc, char **argv)
 		else return 1;
 		return 0;
 	}
+	if (!strcmp(argv[0], "record") && argc >= 2) { record_on = atoi(argv[1]); return 0; }
 	if (!strcmp(argv[0], "sticky") && argc >= 2) { plan_cfg.sticky_permille = atoi(argv[1]); return 0; }
 	if (!strcmp(argv[0], "spurious") && argc >= 2) { plan_cfg.spurious_permille = atoi(argv[1]); return 0; }
 	if (!strcmp(argv[0], "budget") && argc >= 2) { plan_cfg.budget = atol(argv[1]); return 0; }
@@ -601,6 +603,7 @@ void sim_sched_reset(void)
 	memset(&plan_cfg, 0, sizeof(plan_cfg));
 	plan_has_sched = 0;
 	plan_nchoices = 0;
+	record_on = 0;
 	sched_on = 0;
 }
 
@@ -608,6 +611,18 @@ void sim_sched_report(void)
 {
 	if (!sched_on && steps == 0)
 		return;
+	if (record_on) {
+		/* the decision sequence, so that the run can be replayed without the PRNG and shrunk */
+		char line[1000];
+		size_t o = 0;
+		for (size_t i = 0; i < nrec; i++) {
+			o += snprintf(line + o, sizeof(line) - o, "%u ", rec[i]);
+			if (o > 900 || i + 1 == nrec) {
+				sim_trace("C %s", line);
+				o = 0;
+			}
+		}
+	}
 	sim_trace("S steps=%ld decisions=%ld switches=%ld threads=%ld spurious=%ld condwait=%ld/%ld "
 		  "contended=%ld maxrun=%ld stallskip=%ld dhash=%016llx",
 		  steps, decisions, sim_sched_stats.switches, sim_sched_stats.threads_created,
